@@ -1,13 +1,13 @@
 package main
 
 import (
-	"regexp"
 	"bufio"
 	"encoding/json"
 	"flag"
 	"fmt"
 	"os"
 	"path/filepath"
+	"regexp"
 	"sort"
 	"strconv"
 	"strings"
@@ -161,6 +161,10 @@ var ncOrdRe = regexp.MustCompile(`#\d+(\.\d+)*:`)
 var ncTmpRe = regexp.MustCompile(`\bt\d+\b`)
 
 func ncKey(name string) string {
+	if i := strings.Index(name, "/panic#"); i >= 0 {
+		// an explicit panic: its message text is not part of the identity of the site
+		return name[:i] + "/panic"
+	}
 	if loc := ncOrdRe.FindStringIndex(name); loc != nil {
 		return name[:loc[0]] + ":" + ncTmpRe.ReplaceAllString(name[loc[1]:], "t_")
 	}
